@@ -261,3 +261,402 @@ Qed.
 (*STOP*)
 
 End RelC04.
+
+(* ---- one accepted step (after the flush) preserves the relation --------------------------------------- *)
+Section Core.
+Context (cs : amap pconf).
+
+Lemma own_false_of (m : amap iid) th j : own m th j = false <-> get th m <> Some j.
+Proof. rewrite <- own_true. destruct (own m th j); split; congruence. Qed.
+
+Lemma cl_next_rel e c : cl_next e c = CRel -> e = EInstExit \/ c = CRel.
+Proof. destruct e; cbn; try (destruct ok; cbn); intros H; auto; try discriminate H. Qed.
+Lemma cl_next_trig e c : cl_next e c = CTrig -> (exists z, e = EExitTrigger z) \/ c = CTrig.
+Proof. destruct e; cbn; try (destruct ok; cbn); intros H; auto; try discriminate H; eauto. Qed.
+Lemma cl_next_alive e c : cl_next e c = CAlive -> e = ELaunch true \/ c = CAlive.
+Proof. destruct e; cbn; try (destruct ok; cbn); intros H; auto; try discriminate H. Qed.
+Lemma cl_next_pre e c : cl_next e c <> CPre -> c = CPre -> True.
+Proof. auto. Qed.
+Lemma cl_next_nopre e c : cl_pre e = None -> cl_next e c = c.
+Proof. destruct e; cbn; auto; discriminate. Qed.
+
+Lemma g_begin2 s th i s' : step_core s th (EBegin i) = Some s' -> s' = s <| thinst := set th i (thinst s) |>.
+Proof. intros H. unfold step_core in H. break_step H. now subst. Qed.
+
+Lemma alive_next_cases ow e j a : alive_next ow e j a = true ->
+  (e = ELaunch true /\ ow = true) \/ (a = true /\ forall c, e <> ECmdExit j c).
+Proof.
+  destruct e; cbn; try (intros ->; right; split; [reflexivity|intros; discriminate]).
+  - destruct ok; [destruct ow; [auto|]|]; intros ->; right; split; try reflexivity; intros; discriminate.
+  - destruct (N.eqb_spec i j); [discriminate|]. intros ->. right. split; [reflexivity|]. intros c' E. injection E as ? ?. contradiction.
+Qed.
+Lemma exited_next_cases ow e j x : exited_next ow e j x <> None ->
+  (exists c, e = ECmdExit j c) \/ (x <> None /\ exited_next ow e j x = x).
+Proof.
+  destruct e; cbn; auto.
+  - destruct ow; [congruence|auto].
+  - destruct (N.eqb_spec i j); [subst; eauto|auto].
+Qed.
+Lemma cl_pre_alive e : cl_pre e = Some CAlive -> exists c, e = EWaitReturn c.
+Proof. destruct e; cbn; try discriminate; eauto. Qed.
+Lemma cl_pre_norel e : cl_pre e <> Some CRel.
+Proof. destruct e; cbn; discriminate. Qed.
+
+Lemma classic_trig e : (exists z, e = EExitTrigger z) \/ (forall z, e <> EExitTrigger z).
+Proof. destruct e; try (right; intros; discriminate). left. eauto. Qed.
+
+Lemma newinst_inst_eff s th i n s' : step_core s th (ENewInst i n) = Some s' -> inst_eff s th (ENewInst i n) s'.
+Proof.
+  intros H j x Hj. destruct (newinst_eff _ _ _ _ _ H) as (Hnone & c & Hget).
+  exists x. rewrite Hget. destruct (N.eqb_spec i j); [subst; congruence|]. split; [exact Hj|].
+  cbn. destruct (own _ _ _); auto.
+Qed.
+Lemma is_newinst_dec e i : (exists n, e = ENewInst i n) \/ (forall n, e <> ENewInst i n).
+Proof.
+  destruct e; try (right; intros; discriminate). destruct (N.eqb_spec i0 i); [subst; eauto|].
+  right. intros n' E. injection E as ? ?. contradiction.
+Qed.
+Lemma core_inst_eff' s th e s' : step_core s th e = Some s' -> inst_eff s th e s'.
+Proof.
+  intros H. destruct e; try (apply core_inst_eff; [exact H|intros; discriminate]). now apply newinst_inst_eff.
+Qed.
+
+Lemma classic_sdorder e : (exists l, e = EShutdownOrder l) \/ (forall l, e <> EShutdownOrder l).
+Proof. destruct e; try (right; intros; discriminate). left. eauto. Qed.
+
+Lemma R4_core s o g th e s' :
+  R4 cs s o g -> pend (get_thread s th) = None -> step_core s th e = Some s' ->
+  Rc cs s' (obs_step cs o (th, e)) -> gbad (gcore o th e g) = false ->
+  R4 cs s' (obs_step cs o (th, e)) (gcore o th e g).
+Proof.
+  intros HR Hp H HRc Hbad.
+  pose proof (core_inst_eff' _ _ _ _ H) as HI.
+  pose proof (core_none _ _ _ _ H) as HN.
+  destruct (core_scal _ _ _ _ H) as (Swg & Scs & Spc & Sthi & Sthr).
+  destruct (core_thr _ _ _ _ H) as (Tpk & Tdpc & Tapc). specialize (Tpk Hp).
+  pose proof (fun c => core_pre _ _ _ _ c H) as Gpre.
+  assert (HRc0 := r_core _ _ _ _ HR).
+  assert (Hoth : forall t, get t (thinst s) = get t (o_th o)) by (apply (rc_th _ _ _ HRc0)).
+  assert (Hwf : memN th (g_wp g) = false).
+  { destruct (memN th (g_wp g)) eqn:E; [|reflexivity]. apply (r_wp _ _ _ _ HR) in E. rewrite Hp in E. discriminate. }
+  assert (Htf : memN th (g_tp g) = false).
+  { destruct (memN th (g_tp g)) eqn:E; [|reflexivity]. apply (r_tp _ _ _ _ HR) in E. destruct E as (c & E). rewrite Hp in E. discriminate. }
+  assert (Hback : forall j x' x, get j (insts s') = Some x' -> get j (insts s) = Some x ->
+            cl (pc x') = (if own (thinst s) th j then cl_next e (cl (pc x)) else cl (pc x)) /\
+            alive x' = alive_next (own (thinst s) th j) e j (alive x) /\
+            exited x' = exited_next (own (thinst s) th j) e j (exited x)).
+  { intros j x' x Hx' Ex. destruct (HI j x Ex) as (x2 & E2 & ?). assert (x2 = x') by congruence. subst. auto. }
+  (* thinst after the step *)
+  assert (Hthi' : forall t j, get t (thinst s') = Some j ->
+            get t (thinst s) = Some j \/ (e = EBegin j /\ t = th /\ get th (thinst s) = None)).
+  { intros t j. rewrite Sthi. destruct e; auto. rewrite get_set. destruct (N.eqb_spec th t); [|auto].
+    intros E. injection E as <-. subst t. right. destruct (g_begin _ _ _ _ H) as (x & _ & Hn & _). auto. }
+  assert (Hthi_mono : forall t j, get t (thinst s) = Some j -> get t (thinst s') = Some j).
+  { intros t j Ht. rewrite Sthi. destruct e; auto. rewrite get_set. destruct (N.eqb_spec th t); [|auto].
+    subst t. destruct (g_begin _ _ _ _ H) as (x & _ & Hn & _). congruence. }
+  (* the ghost after the step *)
+  assert (Gsp : forall j, In j (g_sp g) -> In j (g_sp (gcore o th e g))) by (intros j Hj; destruct e; cbn; auto).
+  assert (Gwp : forall t, memN t (g_wp (gcore o th e g)) = if N.eqb t th then (match e with EInstExit => true | _ => memN t (g_wp g) end) else memN t (g_wp g)).
+  { intros t. destruct e; cbn -[memN]; try (destruct (N.eqb t th); reflexivity). rewrite memN_cons. destruct (N.eqb t th); reflexivity. }
+  assert (Gtp : forall t, memN t (g_tp (gcore o th e g)) = if N.eqb t th then (match e with EExitTrigger _ => true | _ => memN t (g_tp g) end) else memN t (g_tp g)).
+  { intros t. destruct e; cbn -[memN]; try (destruct (N.eqb t th); reflexivity). rewrite memN_cons. destruct (N.eqb t th); reflexivity. }
+  assert (Gcs : g_cs (gcore o th e g) = g_cs g) by (destruct e; reflexivity).
+  assert (Hpk' : forall t, pk (pend (get_thread s' t)) = if N.eqb t th then pk_next e else pk (pend (get_thread s t))).
+  { intros t. destruct (N.eqb_spec t th); [subst; exact Tpk|now rewrite Sthr]. }
+  assert (Otr : forall t, In t (o_triggers o) -> In t (o_triggers (obs_step cs o (th, e)))).
+  { intros t Hin. rewrite obs_trig. destruct e; auto. destruct (get th (o_th o)); auto. apply in_or_app. now left. }
+  assert (Oapi : o_api_sd_first o = true -> o_api_sd_first (obs_step cs o (th, e)) = true).
+  { intros Ha. rewrite obs_api. destruct e; auto. now rewrite Ha. }
+  constructor.
+  - exact HRc.
+  - apply obs_nodup, (r_nodup _ _ _ _ HR).
+  - rewrite Swg, (r_wg _ _ _ _ HR). destruct e; reflexivity.
+  - intros t. rewrite Gwp, Hpk'. destruct (N.eqb_spec t th); [subst|apply (r_wp _ _ _ _ HR)].
+    rewrite Hwf. destruct e; cbn; split; congruence.
+  - intros t. rewrite Gtp, Hpk'. destruct (N.eqb_spec t th); [subst|apply (r_tp _ _ _ _ HR)].
+    rewrite Htf. destruct e; cbn; split; try congruence; try (intros (z & Hz); congruence); eauto.
+  - rewrite Gcs, Scs. apply (r_cs _ _ _ _ HR).
+  - (* thinst injective *)
+    intros t1 t2 i H1 H2. destruct (Hthi' _ _ H1) as [A1|(A1 & B1 & C1)]; destruct (Hthi' _ _ H2) as [A2|(A2 & B2 & C2)].
+    + eapply (r_inj _ _ _ _ HR); eauto.
+    + subst e. destruct (g_begin _ _ _ _ H) as (x & _ & _ & _ & Hne). exfalso. eapply Hne; eauto.
+    + subst e. destruct (g_begin _ _ _ _ H) as (x & _ & _ & _ & Hne). exfalso. eapply Hne; eauto.
+    + congruence.
+  - (* begun instances exist *)
+    intros t i Ht. destruct (Hthi' _ _ Ht) as [A|(A & B & C)].
+    + destruct (r_thi _ _ _ _ HR t i A) as (x & Hx). destruct (HI i x Hx) as (x' & Hx' & _). eauto.
+    + subst e. destruct (g_begin _ _ _ _ H) as (x & Hx & _). destruct (HI i x Hx) as (x' & Hx' & _). eauto.
+  - (* Pown *)
+    intros t i x' Ht Hx'.
+    assert (Hex : exists x, get i (insts s) = Some x).
+    { destruct (Hthi' _ _ Ht) as [A|(A & B & C)]; [now apply (r_thi _ _ _ _ HR t i)|].
+      subst e. destruct (g_begin _ _ _ _ H) as (x0 & Hx0 & _). eauto. }
+    destruct Hex as (x & Hx). destruct (Hback _ _ _ Hx' Hx) as (Ecl & _ & _).
+    destruct (Hthi' _ _ Ht) as [A|(A & B & C)].
+    2:{ (* the goroutine begins *)
+      subst e t. pose proof (g_begin2 _ _ _ _ H) as Es'. destruct (g_begin _ _ _ _ H) as (x0 & Hx0 & _ & Hthr0 & Hne).
+      assert (Eow : own (thinst s) th i = false) by (apply own_false_of; congruence). rewrite Eow in Ecl.
+      assert (Et0 : get_thread s' th = thread0) by (subst s'; unfold get_thread; cbn; now rewrite Hthr0).
+      unfold Pown. rewrite Et0. cbn [apc dpc thread0]. repeat split; try congruence.
+      - intros _. cbn. unfold gbad in Hbad. cbn in Hbad. apply orb_false_iff in Hbad. destruct Hbad as [Hb _].
+        apply orb_false_iff in Hb. destruct Hb as [_ Hb]. apply negb_false_iff in Hb. now apply memN_In.
+      - intros Hc. exfalso. destruct (rc_inst _ _ _ HRc0 i x Hx) as (xo & Hxo & _).
+        destruct (r_inst _ _ _ _ HR i x xo Hx Hxo) as (_ & _ & _ & D & _).
+        destruct D as (t & Ht'); [congruence|]. eapply Hne; eauto. }
+    destruct (r_own _ _ _ _ HR t i x A Hx) as (PA & PB & PC & PD).
+    destruct (N.eqb_spec t th) as [->|Hne].
+    + (* the thread of the event *)
+      assert (Eow : own (thinst s) th i = true) by (now apply own_true). rewrite Eow in Ecl.
+      assert (Hpre : forall c0, cl_pre e = Some c0 -> cl (pc x) = c0).
+      { intros c0 Ec0. destruct (Gpre c0 Ec0) as (i2 & x2 & Hi2 & Hx2 & Hc2). congruence. }
+      assert (Hhas : has th (thinst s) = true) by (unfold has; now rewrite A).
+      unfold Pown. repeat split.
+      * intros Hprem. apply Gsp, PA. left.
+        destruct (cl_pre e) as [c0|] eqn:Ec0.
+        -- rewrite (Hpre c0 eq_refl). intros ->. now apply (cl_pre_norel e).
+        -- destruct Hprem as [Hc|Hm]; [now rewrite Ecl, cl_next_nopre in Hc|].
+           rewrite Gwp, N.eqb_refl in Hm. destruct e; try (cbn in Ec0; discriminate Ec0); rewrite Hwf in Hm; discriminate.
+      * now apply Tapc.
+      * intros Hd. rewrite Scs. destruct (dpc (get_thread s th)) eqn:Ed; try (apply PC; discriminate).
+        assert (Ee : e = EShutdownCall).
+        { destruct e; try reflexivity; exfalso; apply Hd; apply Tdpc; auto; discriminate. }
+        subst e. destruct (g_sdcall _ _ _ H) as [Ha|(i2 & x2 & c & Hi2 & Hx2 & Hp2)]; [congruence|].
+        assert (i2 = i) by congruence. subst i2. assert (x2 = x) by congruence. subst x2.
+        destruct PD as [PD|PD]; [now rewrite Hp2|exact PD|congruence].
+      * intros Hc. rewrite Ecl in Hc. rewrite Scs, Gtp, N.eqb_refl.
+        destruct (cl_next_trig _ _ Hc) as [(z & ->)|Hc2]; [now right|].
+        destruct (PD Hc2) as [PD'|PD']; [now left|congruence].
+    + (* another thread *)
+      assert (Eow : own (thinst s) th i = false).
+      { apply own_false_of. intros Hc. apply Hne. eapply (r_inj _ _ _ _ HR); eauto. }
+      rewrite Eow in Ecl. unfold Pown. rewrite Ecl, (Sthr t Hne), Scs, Gwp, Gtp. rewrite (proj2 (N.eqb_neq t th) Hne).
+      repeat split; auto.
+  - (* threads with a pending release of interest *)
+    intros t Hm. rewrite Gwp, Gtp in Hm. rewrite Gwp, Gtp. destruct (N.eqb_spec t th) as [Heq|Hne]; [subst t|].
+    + rewrite Hwf, Htf in *.
+      assert (Hee : e = EInstExit \/ exists z, e = EExitTrigger z).
+      { destruct e; destruct Hm as [Hm|Hm]; try discriminate Hm; eauto. }
+      assert (Hpre : cl_pre e = Some COther) by (destruct Hee as [->|(z & ->)]; reflexivity).
+      destruct (Gpre _ Hpre) as (i & x & Hi & Hx & Hc). destruct (HI i x Hx) as (x' & Hx' & Ecl & _).
+      assert (Eow : own (thinst s) th i = true) by (now apply own_true). rewrite Eow, Hc in Ecl.
+      exists i, x'. split; [now apply Hthi_mono|]. split; [exact Hx'|]. rewrite Ecl.
+      destruct Hee as [->|(z & ->)]; cbn; split; auto; discriminate.
+    + destruct (r_pend _ _ _ _ HR t Hm) as (i & x & Hi & Hx & A & B).
+      destruct (HI i x Hx) as (x' & Hx' & Ecl & _).
+      assert (Eow : own (thinst s) th i = false).
+      { apply own_false_of. intros Hc. apply Hne. eapply (r_inj _ _ _ _ HR); eauto. }
+      rewrite Eow in Ecl. exists i, x'. rewrite Ecl. auto.
+  - (* Pinst *)
+    intros i x' xo' Hx' Hxo'. destruct (get i (insts s)) as [x|] eqn:Hx.
+    2:{ (* a new instance *)
+      destruct (is_newinst_dec e i) as [(n & ->)|Hno]; [|rewrite (HN i Hx Hno) in Hx'; discriminate].
+      destruct (newinst_eff _ _ _ _ _ H) as (_ & c & Hget). rewrite Hget, N.eqb_refl in Hx'. injection Hx' as <-.
+      destruct (obs_new cs o th i n) as (xo2 & Hxo2 & Oa & Oi & Ov). assert (xo2 = xo') by congruence. subst xo2.
+      unfold Pinst. cbn. rewrite Oa, Oi, Ov. repeat split; try congruence. intros [?|?]; discriminate. }
+    destruct (Hback _ _ _ Hx' Hx) as (Ecl & Eal & Eex).
+    destruct (rc_inst _ _ _ HRc0 i x Hx) as (xo & Hxo & _).
+    assert (Hnn : forall n, e <> ENewInst i n).
+    { intros n ->. destruct (newinst_eff _ _ _ _ _ H) as (Hnone & _). congruence. }
+    destruct (obs_oi cs o th e i xo Hxo Hnn) as (xo2 & Hxo2 & Oal & Oin & Ovi).
+    assert (xo2 = xo') by congruence. subst xo2.
+    assert (Eown : own (o_th o) th i = own (thinst s) th i) by (unfold own; now rewrite Hoth).
+    rewrite Eown in Oal.
+    destruct (r_inst _ _ _ _ HR i x xo Hx Hxo) as (PA & PB & PC & PD & PE).
+    assert (Hpre : own (thinst s) th i = true -> forall c0, cl_pre e = Some c0 -> cl (pc x) = c0).
+    { intros Ho c0 Ec0. apply own_true in Ho. destruct (Gpre c0 Ec0) as (i2 & x2 & Hi2 & Hx2 & Hc2). congruence. }
+    assert (Hstay : cl (pc x) = CAlive -> exited x = None -> cl (pc x') = CAlive).
+    { intros Hc He. rewrite Ecl. destruct (own (thinst s) th i) eqn:Eo; [|exact Hc].
+      destruct (cl_pre e) as [c0|] eqn:Ec0; [|now rewrite cl_next_nopre].
+      pose proof (Hpre eq_refl c0 eq_refl) as Hc0. rewrite Hc in Hc0. subst c0.
+      destruct (cl_pre_alive _ Ec0) as (z & ->). destruct (g_waitret _ _ _ _ H) as (i2 & x2 & Hi2 & Hx2 & He2).
+      apply own_true in Eo. congruence. }
+    unfold Pinst. split; [|split; [|split; [|split]]].
+    + rewrite Oal, Eal, PA. reflexivity.
+    + intros Ha. split.
+    { rewrite Eal in Ha. destruct (alive_next_cases _ _ _ _ Ha) as [(-> & Eo)|(Ha0 & Hnc)].
+      * rewrite Ecl, Eo. reflexivity.
+      * destruct (PB Ha0) as (Hc & He). now apply Hstay. }
+      rewrite Eal in Ha. rewrite Eex. destruct (alive_next_cases _ _ _ _ Ha) as [(-> & Eo)|(Ha0 & Hnc)].
+      * cbn. pose proof (Hpre Eo COther eq_refl) as Hc. destruct (exited x) eqn:Ee; [|reflexivity].
+        exfalso. assert (cl (pc x) = CAlive) by (apply PC; congruence). congruence.
+      * destruct (PB Ha0) as (Hc & He). rewrite He. destruct e; cbn; try reflexivity.
+        -- destruct (own _ _ _); reflexivity.
+        -- destruct (N.eqb_spec i0 i); [subst; exfalso; eapply Hnc; reflexivity|reflexivity].
+    + intros He. rewrite Eex in He. destruct (exited_next_cases _ _ _ _ He) as [(c & ->)|(He0 & Esame)].
+      * destruct (g_cmdexit _ _ _ _ _ H) as (x2 & Hx2 & Ha2). assert (x2 = x) by congruence. subst x2.
+        destruct (PB Ha2) as (Hc & He2). now apply Hstay.
+      * pose proof (PC He0) as Hc. rewrite Ecl. destruct (own (thinst s) th i) eqn:Eo; [|exact Hc].
+        destruct (cl_pre e) as [c0|] eqn:Ec0; [|now rewrite cl_next_nopre].
+        pose proof (Hpre eq_refl c0 eq_refl) as Hc0. rewrite Hc in Hc0. subst c0.
+        destruct (cl_pre_alive _ Ec0) as (z & ->). cbn in Esame. congruence.
+    + intros Hc. destruct (own (thinst s) th i) eqn:Eo.
+      * apply own_true in Eo. exists th. now apply Hthi_mono.
+      * rewrite Ecl in Hc. destruct (PD Hc) as (t & Ht). exists t. now apply Hthi_mono.
+    + intros Hv. rewrite Scs. rewrite Oin, Ovi in Hv.
+      destruct (classic_sdorder e) as [(l & ->)|Hns].
+      * (* a shutdown snapshot: the code is fixed, or it is an API shutdown before any trigger *)
+        rewrite obs_api. destruct (get th (o_th o)) as [j|] eqn:Ej.
+        -- left. rewrite <- Hoth in Ej. destruct (r_thi _ _ _ _ HR th j Ej) as (xj & Hxj).
+           apply (r_own _ _ _ _ HR th j xj Ej Hxj). rewrite (g_sdorder _ _ _ _ H). discriminate.
+        -- destruct (o_triggers o) eqn:Etr; [right; now rewrite orb_true_r|].
+           left. rewrite <- (r_cs _ _ _ _ HR). unfold gbad in Hbad. cbn in Hbad. rewrite Ej, Etr in Hbad. cbn in Hbad.
+           apply orb_false_iff in Hbad. destruct Hbad as [_ Hb]. apply orb_false_iff in Hb. destruct Hb as [_ Hb].
+           now apply negb_false_iff in Hb.
+      * assert (Hv0 : o_insnap xo = true \/ o_sd_victim xo = true).
+        { destruct e; try (exfalso; eapply Hns; reflexivity); cbn in Hv; rewrite ?orb_false_r in Hv; auto.
+          destruct (N.eqb i0 i); destruct Hv; auto. }
+        destruct (PE Hv0) as [E|E]; [now left|right; now apply Oapi].
+  - rewrite Scs, Spc. apply (r_c0 _ _ _ _ HR).
+  - rewrite Scs, Spc. intros Hc. destruct (r_c1 _ _ _ _ HR Hc) as (t & Hin & Hcode & Hd). exists t. repeat split; auto.
+    destruct Hd as [Hd|Hd]; [now left|right; now apply Oapi].
+  - intros t c. rewrite Hpk', Scs. destruct (N.eqb_spec t th) as [Heq|Hne]; [subst t|].
+    + intros Hk. assert (Ee : e = EExitTrigger c) by (destruct e; cbn in Hk; try discriminate Hk; congruence). subst e.
+      destruct (Gpre _ eq_refl) as (i & x & Hi & Hx & Hc).
+      assert (Hoi : get th (o_th o) = Some i) by (now rewrite <- Hoth).
+      destruct (rc_inst _ _ _ HRc0 i x Hx) as (xo & Hxo & _).
+      exists (i, c, o_sd_victim (oi_get o i)). split; [|split; [reflexivity|]].
+      * rewrite obs_trig, Hoi. apply in_or_app. right. now left.
+      * cbn [snd]. unfold oi_get. rewrite Hxo. destruct (o_sd_victim xo) eqn:Ev; [|now right; left].
+        destruct (r_inst _ _ _ _ HR i x xo Hx Hxo) as (_ & _ & _ & _ & E).
+        destruct E as [E|E]; [now right|now left|right; right; now apply Oapi].
+    + intros Hk. destruct (r_c2 _ _ _ _ HR t c Hk) as (tr & Hin & Hcode & Hd). exists tr. repeat split; auto.
+      destruct Hd as [Hd|[Hd|Hd]]; auto.
+  - intros Hne. destruct (classic_trig e) as [(z & ->)|Hnt].
+    + right. exists th. now rewrite Gtp, N.eqb_refl.
+    + assert (Etr : o_triggers (obs_step cs o (th, e)) = o_triggers o) by (rewrite obs_trig; destruct e; try reflexivity; exfalso; eapply Hnt; reflexivity).
+      rewrite Etr in Hne. rewrite Scs. destruct (r_c3 _ _ _ _ HR Hne) as [Hc|(t & Ht)]; [now left|].
+      right. exists t. rewrite Gtp. destruct (N.eqb_spec t th); [subst; congruence|exact Ht].
+Qed.
+
+(* at ERunReturn the monitor's check follows from the relation *)
+Lemma R4_mon s o g th : R4 cs s o g -> wg s = 0 -> mon_C04 cs o (th, ERunReturn (proj_code s)) = true.
+Proof.
+  intros HR Hwg. assert (Hsp : g_sp g = []).
+  { rewrite (r_wg _ _ _ _ HR) in Hwg. destruct (g_sp g); [reflexivity|discriminate]. }
+  assert (Hnotok : forall t i x, get t (thinst s) = Some i -> get i (insts s) = Some x -> cl (pc x) = CRel).
+  { intros t i x Ht Hx. destruct (r_own _ _ _ _ HR t i x Ht Hx) as (A & _).
+    destruct (cl (pc x)) eqn:E; try reflexivity; exfalso; (assert (Hin : In i (g_sp g)) by (apply A; left; discriminate));
+      rewrite Hsp in Hin; exact Hin. }
+  assert (Hnotp : forall t, memN t (g_tp g) = false).
+  { intros t. destruct (memN t (g_tp g)) eqn:E; [|reflexivity].
+    destruct (r_pend _ _ _ _ HR t (or_intror E)) as (i & x & Ht & Hx & _ & B).
+    rewrite (Hnotok _ _ _ Ht Hx) in B. specialize (B E). discriminate. }
+  unfold mon_C04. cbn [snd]. apply andb_true_iff. split.
+  - (* no command alive *)
+    apply forallb_forall. intros xo Hin.
+    destruct (in_vals_get _ _ (r_nodup _ _ _ _ HR) Hin) as (i & Hxo).
+    destruct (get i (insts s)) as [x|] eqn:Hx.
+    2:{ rewrite (rc_noinst _ _ _ (r_core _ _ _ _ HR) i Hx) in Hxo. discriminate. }
+    destruct (r_inst _ _ _ _ HR i x xo Hx Hxo) as (A & B & _ & D & _).
+    rewrite A. destruct (alive x) eqn:Ea; [|reflexivity]. exfalso.
+    destruct (B eq_refl) as (Hc & _). destruct D as (t & Ht); [congruence|].
+    pose proof (Hnotok _ _ _ Ht Hx). congruence.
+  - (* the exit code *)
+    destruct (o_triggers o) as [|t0 ts] eqn:Etr.
+    + destruct (code_set s) eqn:Ecs.
+      * destruct (r_c1 _ _ _ _ HR Ecs) as (t & Hin & _). rewrite Etr in Hin. destruct Hin.
+      * rewrite (r_c0 _ _ _ _ HR Ecs). reflexivity.
+    + assert (Ecs : code_set s = true).
+      { destruct (r_c3 _ _ _ _ HR) as [E|(t & E)]; [rewrite Etr; discriminate|exact E|]. rewrite Hnotp in E. discriminate. }
+      destruct (r_c1 _ _ _ _ HR Ecs) as (t & Hin & Hcode & Hd). rewrite Etr in Hin.
+      assert (Hany : existsb (fun t1 : iid * Z * bool => (snd (fst t1) =? proj_code s)%Z) (t0 :: ts) = true).
+      { apply existsb_exists. exists t. split; [exact Hin|]. now apply Z.eqb_eq. }
+      destruct (o_api_sd_first o) eqn:Eapi; [exact Hany|].
+      destruct (filter (fun t1 : iid * Z * bool => negb (snd t1)) (t0 :: ts)) eqn:Ef; [exact Hany|].
+      rewrite <- Ef. apply existsb_exists. exists t. split; [|now apply Z.eqb_eq].
+      apply filter_In. split; [exact Hin|]. destruct Hd as [Hd|Hd]; [now rewrite Hd|discriminate].
+Qed.
+
+Lemma R4_step s o g te s' : R4 cs s o g -> step s te = Some s' -> gbad (gstep o g te) = false ->
+  R4 cs s' (obs_step cs o te) (gstep o g te) /\ mon_C04 cs o te = true.
+Proof.
+  intros HR H Hbad. destruct te as [th e]. pose proof (Rc_step cs _ _ _ _ _ (r_core _ _ _ _ HR) H) as HRc.
+  unfold step in H. cbn [fst snd] in H. unfold gstep in *. cbn [fst snd] in *.
+  destruct (R4_flush cs _ _ _ th HR) as (HR0 & Hp0).
+  split; [now apply (R4_core _ _ _ _ _ _ HR0 Hp0 H)|].
+  destruct e; try reflexivity.
+  destruct (g_runret _ _ _ _ H) as (Hwg & ->). now apply (R4_mon _ _ _ th HR0).
+Qed.
+End Core.
+
+(* ---- the theorem ------------------------------------------------------------------------------------- *)
+(* the decidable side condition on a history: [ghost_of] folds the ghost along the history *)
+Definition ghost_of (cs : amap pconf) (evs : list (tid * event)) : ghost :=
+  grun cs ghost gstep (obs0 cs) ghost0 evs.
+Definition C04_disciplined (cs : amap pconf) (evs : list (tid * event)) : bool := negb (gbad (ghost_of cs evs)).
+
+Theorem C04_main_partial_lemma : forall cs ord evs s,
+  accept (init cs ord) evs = Some s -> C04_disciplined cs evs = true -> holds_C04 cs evs = true.
+Proof.
+  intros cs ord evs s Hacc Hd. unfold holds_C04.
+  apply (gsim_holds cs ord ghost ghost0 gstep gbad (R4 cs) (mon_C04 cs) (R4_init cs ord)) with (s := s).
+  - intros s0 o g e s1 HR Hs Hb. eapply R4_step; eauto.
+  - intros o g e. apply gstep_bad_mono.
+  - exact Hacc.
+  - unfold C04_disciplined, ghost_of in Hd. now apply negb_true_iff in Hd.
+Qed.
+
+
+(* ---- the statement without a side condition is false of the model ----------------------------------- *)
+Module C04Refute.
+Open Scope N_scope.
+(* (1) the model lets a goroutine begin for an instance that was never spawned (no waitGroup.Add): *)
+Definition cD := mkConf [] PNo 0 0 false false false false false false true.
+Definition cs1 : amap pconf := [(1, cD)].
+Definition evs1 : list (tid * event) :=
+ [(10, ENewInst 1 1); (10, ERegAdd 1 1); (1, EBegin 1); (1, ERunChecked false); (1, EStarted); (1, EState 1 SRunning);
+  (1, ELaunch true); (0, EApiBegin OpRun); (0, ERunSpawned); (0, ERunReturn 0%Z)].
+(* (2) a shutdown requested through the API between the exit_trigger trace point of a failing
+   exit_on_failure process (code 3) and its exitCodeOnce.Do: the victim of that shutdown (code 7) fixes
+   the project exit code first. *)
+Definition cF := mkConf [] PExitOnFailure 0 0 false false false false false false false.
+Definition cs2 : amap pconf := [(0, cF); (1, cF)].
+Definition evs2 : list (tid * event) :=
+ [(1, EApiBegin OpRun);
+  (1, ENewInst 1 0); (1, EState 1 SPending); (1, ERegAdd 1 0); (1, ESpawn 1 0);
+  (1, ENewInst 2 1); (1, EState 2 SPending); (1, ERegAdd 2 1); (1, ESpawn 2 1);
+  (1, ERunSpawned);
+  (2, EBegin 1); (3, EBegin 2);
+  (2, ERunChecked false); (2, EStarted); (2, EState 1 SRunning); (2, ELaunch true);
+  (3, ERunChecked false); (3, EStarted); (3, EState 2 SRunning); (3, ELaunch true);
+  (0, ECmdExit 1 3%Z); (2, EWaitReturn 3%Z); (2, EExitCode 3%Z); (2, ERestartDecision false);
+  (2, EProcEnd 1 SCompleted); (2, EState 1 SCompleted); (2, EProcEnded 1 SCompleted);
+  (2, ERunReturned 3%Z); (2, EDoneAdd 1); (2, EInstDone);
+  (2, EExitTrigger 3%Z);
+  (5, EApiBegin OpShutdown); (5, EShutdownCall); (5, EShutdownBegin); (5, EShutdownOrder [1; 2]);
+  (5, EStopEnter 1 true); (5, EStopReturn 1);
+  (5, EStopEnter 2 true); (5, EStopRunning 2); (5, EState 2 STerminating); (5, ESignal 2 15%Z false); (5, EStopReturn 2);
+  (0, ECmdExit 2 7%Z); (3, EWaitReturn 7%Z); (3, EExitCode 7%Z); (3, ERestartDecision false);
+  (3, EProcEnd 2 SCompleted); (3, EState 2 SCompleted); (3, EProcEnded 2 SCompleted);
+  (3, ERunReturned 7%Z); (3, EDoneAdd 2); (3, EInstDone);
+  (5, EShutdownEnd); (5, EShutdownUnlocked); (5, EApiReturn true);
+  (3, EExitTrigger 7%Z); (3, EResume);
+  (3, EShutdownCall); (3, EShutdownBegin); (3, EShutdownOrder [1; 2]);
+  (3, EStopEnter 1 true); (3, EStopReturn 1); (3, EStopEnter 2 true); (3, EStopReturn 2);
+  (3, EShutdownEnd); (3, EShutdownUnlocked); (3, EExitCodeSet 7%Z); (3, EInstExit); (3, EWgDone);
+  (2, EResume);
+  (2, EShutdownCall); (2, EShutdownBegin); (2, EShutdownOrder [1; 2]);
+  (2, EStopEnter 1 true); (2, EStopReturn 1); (2, EStopEnter 2 true); (2, EStopReturn 2);
+  (2, EShutdownEnd); (2, EShutdownUnlocked); (2, EExitCodeSet 7%Z); (2, EInstExit); (2, EWgDone);
+  (1, ERunReturn 7%Z); (1, EApiReturn false)].
+End C04Refute.
+
+Definition accepted_hist (cs : amap pconf) (ord : bool) (evs : list (tid * event)) : bool :=
+  match accept (init cs ord) evs with Some _ => true | None => false end.
+
+(* no early return / exit code are refuted, outside every known window, when the history is not disciplined *)
+Lemma C04_refuted_nospawn_lemma :
+  exists cs ord evs s, accept (init cs ord) evs = Some s /\ no_windows cs evs = true /\ holds_C04 cs evs = false.
+Proof.
+  exists C04Refute.cs1, false, C04Refute.evs1.
+  destruct (accept (init C04Refute.cs1 false) C04Refute.evs1) as [s|] eqn:E; [|vm_compute in E; discriminate].
+  exists s. split; [reflexivity|]. split; vm_compute; reflexivity.
+Qed.
+Lemma C04_refuted_code_lemma :
+  exists cs ord evs s, accept (init cs ord) evs = Some s /\ no_windows cs evs = true /\
+                       g_badb (ghost_of cs evs) = false /\ holds_C04 cs evs = false.
+Proof.
+  exists C04Refute.cs2, false, C04Refute.evs2.
+  destruct (accept (init C04Refute.cs2 false) C04Refute.evs2) as [s|] eqn:E; [|vm_compute in E; discriminate].
+  exists s. split; [reflexivity|]. repeat split; vm_compute; reflexivity.
+Qed.
